@@ -54,8 +54,8 @@ ASSUMPTIONS = [
 NSHARDS = {"quick": 16, "thorough": 16}
 BUDGET_S = {"quick": 20, "thorough": 300}
 FLOORS = {
-    # both tiers are count-bounded on this machine: quick 33.8k evaluations /
-    # 11.2k distinct, thorough 1.44M / 269k
+    # both tiers are count-bounded on an idle machine: quick 46.7k evaluations /
+    # 17.4k distinct (4.5 s), thorough 1.95M / 309k (165 s); at load ~6x quick gave 21k / 9.7k
     "quick": {"evaluations": 8000, "distinct": 2800,
               "counters": {"identity_checks": 2300, "literal_results": 2500, "text_results": 2900,
                            "mode:sync.render": 2700, "mode:async.render_async": 2700,
